@@ -165,4 +165,236 @@ theorem ufunc1_static_sound {i o : SInfo} {s : Shape} (h : i.γ s) (ho : transfe
   simp only [transferUfunc1, Option.some.injEq] at ho; subst ho
   exact ufuncInfo_sound hs.1 hs.2
 
+theorem tile_static_sound {i o : SInfo} {s : Shape} {k : ArrK} {reps : List Nat}
+    (h : i.γ s) (hk : k.γ reps) (ho : transferTile k i = some o) : o.γ (refTile reps s) := by
+  have hs := (seen_sound h).1
+  rw [seen_shape] at hs
+  simp only [transferTile, Option.some.injEq, seen_shape] at ho; subst ho
+  have hlen : (tileLenK i.shape.lenK k.lenK).toShapeK.γ (refTile reps s) := by
+    apply toShapeK_of_lenK
+    rw [length_refTile]
+    exact tileLenK_sound (lenK_sound hs) (arrK_lenK_sound hk)
+  have hd : (match i.shape, k with
+      | .const l, .ct r => ShapeK.const (refTile r l)
+      | sh, r => (tileLenK sh.lenK r.lenK).toShapeK).γ (refTile reps s) := by
+    cases hsh : i.shape with
+    | const l =>
+      cases k with
+      | ct r =>
+        simp only [hsh, ShapeK.γ] at hs; simp only [ArrK.γ] at hk; subst hs hk
+        simp [ShapeK.γ]
+      | cl m => simpa [hsh] using hlen
+      | rt n => simpa [hsh] using hlen
+      | rtv => simpa [hsh] using hlen
+    | clipped b => simpa [hsh] using hlen
+    | fixedDim n => simpa [hsh] using hlen
+    | boundedDim n => simpa [hsh] using hlen
+    | dyn => simpa [hsh] using hlen
+  exact indexingInfo_sound hd (productK_sound hd)
+
+example : refTile [3, 1, 2] [2, 3] = [3, 2, 6] := by decide
+example : transferTile (.rt 3) ⟨.boundedDim 2, .any⟩ = some ⟨.boundedDim 3, .any⟩ := by decide
+
+/-- admitted run-time values of the `axes` argument of transpose -/
+def axesOk : Option ArrK → Option (List Nat) → Prop
+  | none, v => v = none
+  | some k, some v => k.γ v
+  | some _, none => False
+
+theorem transpose_static_sound {i o : SInfo} {s t : Shape} {k : Option ArrK} {axes : Option (List Nat)}
+    (h : i.γ s) (hk : axesOk k axes) (hr : refTranspose axes s = some t) (ho : transferTranspose k i = some o) : o.γ t := by
+  have hs := seen_sound h
+  have hsh := hs.1
+  rw [seen_shape] at hsh
+  -- facts about the reference result
+  have hfacts : t.length = s.length ∧ prod t = prod s := by
+    cases axes with
+    | none => simp only [refTranspose, Option.some.injEq] at hr; subst hr; simp [prod_reverse]
+    | some p =>
+      simp only [refTranspose] at hr
+      split at hr
+      · rename_i hperm
+        have hperm' : p.Perm (List.range s.length) := List.isPerm_iff.mp hperm
+        refine ⟨?_, gather_prod hperm' hr⟩
+        rw [gather_length hr, hperm'.length_eq]; simp
+      · simp at hr
+  have hz : i.seen.size.γ (prod t) := by rw [hfacts.2]; exact hs.2
+  have hlenK : i.shape.lenK.toShapeK.γ t := lenK_toShapeK_sound hsh hfacts.1
+  simp only [transferTranspose, seen_shape] at ho
+  cases hk' : i.shape with
+  | const l =>
+    simp only [hk', ShapeK.γ] at hsh; subst hsh
+    cases k with
+    | none =>
+      simp only [axesOk] at hk; subst hk
+      simp only [hk', Option.map_some, Option.some.injEq] at ho; subst ho
+      simp only [refTranspose, Option.some.injEq] at hr; subst hr
+      exact indexingInfo_sound rfl hz
+    | some a =>
+      cases axes with
+      | none => simp [axesOk] at hk
+      | some p =>
+        simp only [axesOk] at hk
+        cases a with
+        | ct c =>
+          simp only [ArrK.γ] at hk; subst hk
+          simp only [hk', hr, Option.map_some, Option.some.injEq] at ho; subst ho
+          exact indexingInfo_sound rfl hz
+        | cl m => simp only [hk', Option.map_some, Option.some.injEq] at ho; subst ho
+                  exact indexingInfo_sound (by simpa [ShapeK.γ] using hfacts.1) hz
+        | rt n => simp only [hk', Option.map_some, Option.some.injEq] at ho; subst ho
+                  exact indexingInfo_sound (by simpa [ShapeK.γ] using hfacts.1) hz
+        | rtv => simp only [hk', Option.map_some, Option.some.injEq] at ho; subst ho
+                 exact indexingInfo_sound (by simpa [ShapeK.γ] using hfacts.1) hz
+  | clipped b =>
+    simp only [hk', ShapeK.γ] at hsh
+    cases k with
+    | none =>
+      simp only [axesOk] at hk; subst hk
+      simp only [hk', Option.map_some, Option.some.injEq] at ho; subst ho
+      simp only [refTranspose, Option.some.injEq] at hr; subst hr
+      exact indexingInfo_sound (show LeAll _ _ from hsh.reverse) hz
+    | some a =>
+      cases axes with
+      | none => simp [axesOk] at hk
+      | some p =>
+        simp only [axesOk] at hk
+        have hbl : b.length = s.length := hsh.length_eq.symm
+        cases a with
+        | ct c =>
+          simp only [ArrK.γ] at hk; subst hk
+          simp only [refTranspose] at hr
+          split at hr
+          · rename_i hperm
+            obtain ⟨t', ht', hle⟩ := gather_leAll hsh hr
+            simp only [hk', refTranspose, hbl, hperm, if_true, ht', Option.map_some, Option.some.injEq] at ho; subst ho
+            exact indexingInfo_sound hle hz
+          · simp at hr
+        | cl m => simp only [hk', Option.map_some, Option.some.injEq] at ho; subst ho
+                  exact indexingInfo_sound (by simp [ShapeK.γ, hfacts.1, hbl]) hz
+        | rt n => simp only [hk', Option.map_some, Option.some.injEq] at ho; subst ho
+                  exact indexingInfo_sound (by simp [ShapeK.γ, hfacts.1, hbl]) hz
+        | rtv => simp only [hk', Option.map_some, Option.some.injEq] at ho; subst ho
+                 exact indexingInfo_sound (by simp [ShapeK.γ, hfacts.1, hbl]) hz
+  | fixedDim n =>
+    simp only [hk'] at ho hlenK
+    cases k <;> simp only [Option.map_some, Option.some.injEq] at ho <;> subst ho <;> exact indexingInfo_sound hlenK hz
+  | boundedDim n =>
+    simp only [hk'] at ho hlenK
+    cases k <;> simp only [Option.map_some, Option.some.injEq] at ho <;> subst ho <;> exact indexingInfo_sound hlenK hz
+  | dyn =>
+    simp only [hk'] at ho hlenK
+    cases k <;> simp only [Option.map_some, Option.some.injEq] at ho <;> subst ho <;> exact indexingInfo_sound hlenK hz
+
+example : refTranspose (some [2, 0, 1]) [2, 3, 4] = some [4, 2, 3] := by decide
+example : transferTranspose (some (.ct [1, 0])) ⟨.clipped [2, 3], .any⟩ = some ⟨.clipped [3, 2], .atMost 6⟩ := by decide
+
+theorem expand_dims_static_sound {i o : SInfo} {s t : Shape} {k : AxisK} {axes : List Nat}
+    (h : i.γ s) (hk : k.γ axes) (hr : refExpandDims axes s = some t) (ho : transferExpandDims k i = some o) : o.γ t := by
+  have hs := seen_sound h
+  have hsh := hs.1
+  rw [seen_shape] at hsh
+  obtain ⟨hlen, hprod⟩ := refExpandDims_spec hr
+  have hz : i.seen.size.γ (prod t) := by rw [hprod]; exact hs.2
+  have hgen : ∀ m, m = axes.length → ((i.shape.lenK.add m).toShapeK).γ t := by
+    intro m hm
+    apply toShapeK_of_lenK
+    rw [hlen, ← hm]
+    exact lenK_add_sound m (lenK_sound hsh)
+  cases k with
+  | none => simp [AxisK.γ] at hk
+  | cts x =>
+    simp only [AxisK.γ] at hk; subst hk
+    simp only [transferExpandDims, seen_shape] at ho
+    cases hk' : i.shape with
+    | const l =>
+      simp only [hk', ShapeK.γ] at hsh; subst hsh
+      simp only [hk', hr, Option.map_some, Option.some.injEq, reshapeByKind] at ho; subst ho
+      exact indexingInfo_sound rfl hz
+    | clipped b => simp only [hk', Option.some.injEq, reshapeByKind] at ho; subst ho
+                   exact indexingInfo_sound (by simpa [hk'] using hgen 1 rfl) hz
+    | fixedDim n => simp only [hk', Option.some.injEq, reshapeByKind] at ho; subst ho
+                    exact indexingInfo_sound (by simpa [hk'] using hgen 1 rfl) hz
+    | boundedDim n => simp only [hk', Option.some.injEq, reshapeByKind] at ho; subst ho
+                      exact indexingInfo_sound (by simpa [hk'] using hgen 1 rfl) hz
+    | dyn => simp only [hk', Option.some.injEq, reshapeByKind] at ho; subst ho
+             exact indexingInfo_sound (by simpa [hk'] using hgen 1 rfl) hz
+  | ctt c =>
+    simp only [AxisK.γ] at hk; subst hk
+    simp only [transferExpandDims, seen_shape, Option.some.injEq, reshapeByKind] at ho; subst ho
+    exact indexingInfo_sound (hgen _ rfl) hz
+  | rts =>
+    simp only [AxisK.γ] at hk
+    simp only [transferExpandDims, seen_shape, Option.some.injEq, reshapeByKind] at ho; subst ho
+    exact indexingInfo_sound (hgen 1 hk.symm) hz
+  | rt n =>
+    simp only [AxisK.γ] at hk
+    simp only [transferExpandDims, seen_shape, Option.some.injEq, reshapeByKind] at ho; subst ho
+    exact indexingInfo_sound (hgen n hk.symm) hz
+
+example : refExpandDims [0, 3] [2, 3] = some [1, 2, 3, 1] := by decide
+
+theorem reduceGeneric_sound {sh d : ShapeK} {s t : Shape} {k : AxisK} {axes : List Nat} {kd : Bool}
+    (hsh : sh.γ s) (hk : k.γ axes)
+    (hlen : if kd then t.length = s.length else t.length + axes.length = s.length)
+    (hd : reduceGeneric k kd sh = some d) : d.γ t := by
+  have hcount : k.count = some axes.length := by
+    cases k <;> simp only [AxisK.γ, AxisK.count] at hk ⊢
+    · subst hk; rfl
+    · subst hk; rfl
+    · rw [hk]
+    · rw [hk]
+  simp only [reduceGeneric, hcount] at hd
+  cases kd with
+  | true =>
+    simp only [if_true, Option.some.injEq] at hd; subst hd
+    exact lenK_toShapeK_sound hsh (by simpa using hlen)
+  | false =>
+    simp only [Bool.false_eq_true, if_false, Option.map_eq_some_iff] at hd
+    obtain ⟨k', hk', rfl⟩ := hd
+    exact toShapeK_of_lenK (lenK_sub_sound (lenK_sound hsh) hk' (by simpa using hlen))
+
+theorem static?_eq {k : AxisK} {axes a : List Nat} (hk : k.γ axes) (hs : k.static? = some a) : a = axes := by
+  cases k <;> simp only [AxisK.γ, AxisK.static?, Option.some.injEq] at hk hs
+  · subst hk hs; rfl
+  · subst hk hs; rfl
+  all_goals simp at hs
+
+/-- reductions (sum, prod, ... along axes): positive extents, the guard of the property -/
+theorem reduce_static_sound {i o : SInfo} {s t : Shape} {k : AxisK} {axes : List Nat} {kd : Bool}
+    (h : i.γ s) (hpos : Pos s) (hk : k.γ axes) (hr : refReduce axes kd s = some t) (ho : transferReduce k kd i = some o) : o.γ t := by
+  have hsh := (seen_sound h).1
+  rw [seen_shape] at hsh
+  obtain ⟨hlen, hprod⟩ := refReduce_spec hpos hr
+  simp only [transferReduce, seen_shape, Option.map_eq_some_iff] at ho
+  obtain ⟨d, hd, rfl⟩ := ho
+  -- the shape kind
+  have hdγ : d.γ t := by
+    unfold reduceShapeK at hd
+    cases hsk : i.shape with
+    | const l =>
+      cases hst : k.static? with
+      | some a =>
+        have := static?_eq hk hst; subst this
+        simp only [hsk, ShapeK.γ] at hsh; subst hsh
+        simp only [hsk, hst, hr, Option.map_some, Option.some.injEq] at hd; subst hd; rfl
+      | none => simp only [hsk, hst] at hd; exact reduceGeneric_sound (by rw [← hsk]; exact hsh) hk hlen hd
+    | clipped b => simp only [hsk] at hd; exact reduceGeneric_sound (by rw [← hsk]; exact hsh) hk hlen hd
+    | fixedDim n => simp only [hsk] at hd; exact reduceGeneric_sound (by rw [← hsk]; exact hsh) hk hlen hd
+    | boundedDim n => simp only [hsk] at hd; exact reduceGeneric_sound (by rw [← hsk]; exact hsh) hk hlen hd
+    | dyn => simp only [hsk] at hd; exact reduceGeneric_sound (by rw [← hsk]; exact hsh) hk hlen hd
+  -- the size: exact for a constant shape, otherwise the operand's own bound carries over (the result is not larger)
+  refine ⟨hdγ, ?_⟩
+  have hz := h.2
+  cases d with
+  | const l => simp only [ShapeK.γ] at hdγ; subst hdγ; simp [reduceInfo, SizeK.γ]
+  | clipped b => cases hsz : i.size <;> simp only [reduceInfo, hsz, SizeK.γ] at hz ⊢ <;> omega
+  | fixedDim n => cases hsz : i.size <;> simp only [reduceInfo, hsz, SizeK.γ] at hz ⊢ <;> omega
+  | boundedDim n => cases hsz : i.size <;> simp only [reduceInfo, hsz, SizeK.γ] at hz ⊢ <;> omega
+  | dyn => cases hsz : i.size <;> simp only [reduceInfo, hsz, SizeK.γ] at hz ⊢ <;> omega
+
+example : refReduce [0, 2] false [2, 3, 4] = some [3] := by decide
+example : refReduce [1] true [2, 3, 4] = some [2, 1, 4] := by decide
+example : transferReduce (.rts) false ⟨.boundedDim 3, .atMost 24⟩ = some ⟨.boundedDim 2, .atMost 24⟩ := by decide
+
 end NmVerif.Props.C11
